@@ -153,8 +153,9 @@ def laws(cfg, st, workers=4, coverage=False):
 
 def _violation(rep, pid, layer, cfgname, p, f, mode, tick):
     key = {"layer": layer, "cfg": cfgname, "prog": compact(p), "e": f.get("e", 0), "t": f.get("t", 0),
-           "y": f.get("y", 0), "why": f.get("why", ""), "tag": f.get("tag", ""), "mode": mode}
-    replay = {"p": p, "e": f.get("e", 0), "t": f.get("t", 0), "y": f.get("y", 0), "text": f.get("text"),
+           "y": f.get("y", 0), "m": f.get("m", 0), "why": f.get("why", ""), "tag": f.get("tag", ""), "mode": mode}
+    replay = {"p": p, "e": f.get("e", 0), "t": f.get("t", 0), "y": f.get("y", 0), "m": f.get("m", 0),
+              "text": f.get("text"),
               "flags": f.get("flags", []), "stdin": f.get("stdin", False), "mode": mode, "tick": tick,
               "expected": f.get("expected"), "observed": f.get("observed")}
     detail = (f"{layer} {cfgname}: the shell's run of the program differs from what Semantics.tla prescribes "
@@ -329,7 +330,7 @@ def random_and_validate(rep, pid, wd, n, size, profile, st, jobs=4, shards=8):
     with _LOCK:
         for g, info in rejects:
             rec = fulls[g]
-            f = {"e": rec["e"], "t": rec["t"], "y": rec["y"], "why": "rejected by Trace_Semantics",
+            f = {"e": rec["e"], "t": rec["t"], "y": rec["y"], "m": rec.get("m", 0), "why": "rejected by Trace_Semantics",
                  "tag": (info or {}).get("tag", ""), "text": rec.get("text"), "flags": rec.get("flags", []),
                  "stdin": rec.get("stdin", False),
                  "expected": {"tr": (info or {}).get("tr"), "st": (info or {}).get("st")},
